@@ -166,7 +166,7 @@ End ==
      ELSE IF ~Ev.vok \/ Ev.v # V THEN Reject("end: returned values are not the values of the last sweep")
      ELSE IF ~Ev.polok THEN Reject("end: returned policy contains a vector that is not in the action space")
      ELSE IF ~PolicyGreedy THEN Reject("end: returned policy is not greedy for the returned values")
-     ELSE IF T.kind = "SAVI" /\ T.shuffle /\ M.ns >= 4 /\ Cardinality(perms) = 1 /\ iter - T.iter0 >= 3
+     ELSE IF T.kind = "SAVI" /\ T.shuffle /\ ~T.reloads /\ M.ns >= 4 /\ Cardinality(perms) = 1 /\ iter - T.iter0 >= 3
        THEN Reject("end: the same permutation was used in every sweep (not drawn afresh)")
      ELSE IF stopped /\ i = Len(T.ev) /\ T.cert.kind # "none" /\ ~CertOK
        THEN Reject("MACHINERY: certificate supplied by the harness does not verify")
